@@ -1,0 +1,12 @@
+//go:build verif
+
+// Contracts for package bifrost_rpc, checked by /verif (bfvc). Comment-only.
+package bifrost_rpc
+
+//@ ifacegetters LookupRpcService LookupRpcClient
+
+//@ func (*lookupRpcService).IsEquivalent
+//@   ensures ret ==> samegetters(d, other, LookupRpcService)
+
+//@ func (*lookupRpcClient).IsEquivalent
+//@   ensures ret ==> samegetters(d, other, LookupRpcClient)
